@@ -317,3 +317,23 @@ def shipped_literal(g):
     assoc = lambda l: coq_list(f"({k}, {nat_list(v)})" for k, v in l)  # noqa: E731
     obs = f"inr ({nat_list(g['order'])}, {coq_list(nat_list(c) for c in g['dchildren'])}, {assoc(g['children'])}, {assoc(g['ancestors'])})"
     return f"({ds}, {obs}, {coq_list(nat_list(p) for p in g['parents'])})"
+
+
+def shipped_defs_coq(graphs) -> str:
+    """Text of coq/gen/GenC15Defs.v: for every shipped configuration the definitions of `get_variables_specs()` as `vdef`
+    literals (same indexing as GenGraphs.v: rank of the name; other identifiers after the variables)."""
+    from harness.common import coq_string
+    lines = ["(* REGENERATED on every run from the running code of $VERIF_REPO by harness/c15_defs.py (via translate/graphs.py) - do not edit *)",
+             "From Coq Require Import List String.", "From Leaspy Require Import Dag.GraphLit Dag.FromDict.", "Import ListNotations.", ""]
+    for g in graphs:
+        names = g["names"]
+        rank = {n: i for i, n in enumerate(names)}
+        ids = set()
+        for d in g["defs"].values():
+            all_identifiers(d, ids)
+        for k, n in enumerate(sorted(ids - set(names))):
+            rank[n] = len(names) + k
+        lines.append(f"Definition d_{g['label']} : list vdef := " + coq_list(vdef_lit(g["defs"][n], g["defs"][n].get("sig"), rank) for n in names) + ".")
+    lines.append("")
+    lines.append("Definition shipped_defs : list (string * list vdef) := " + coq_list(f"({coq_string(g['label'])}, d_{g['label']})" for g in graphs) + ".")
+    return "\n".join(lines) + "\n"
